@@ -48,8 +48,17 @@ def run(ctx):
                               extra=["-schedule", sched, "-validators", "4", "-maxvals", "3", "-maxperentity", "2", "-extranodes", "2",
                                      "-tiedstake", "-epoch", "4"])
     l4, s4 = cc.run_scenarios(ctx, [x + 200 for x in seeds2], 60 if q else 200, extra=["-schedule", sched] + cc.VRF)
-    lines += l2 + l3 + l4
-    sums += s2 + s3 + s4
+    # replicas that join by state sync (snapshots served by the pathbadger and the badger validator replica, restored into both
+    # backends, chunk order in-order / reverse / shuffled / after a corrupted copy / with duplicates) and catch up
+    l5s, s5s = cc.run_scenarios(ctx, [x + 300 for x in seeds2], 130 if q else 330, extra=["-schedule", sched, "-statesync", "25"])
+    l6s, s6s = cc.run_scenarios(ctx, [x + 400 for x in seeds2[:max(1, len(seeds2) // 3)]], 130 if q else 330,
+                                extra=["-schedule", sched, "-statesync", "25"] + cc.VRF)
+    lines += l2 + l3 + l4 + l5s + l6s
+    sums += s2 + s3 + s4 + s5s + s6s
+    nsync = sum(1 for ln in lines if '"ev":"statesync"' in ln)
+    if nsync < 4:
+        raise vlib.Infra("vacuous run: only %d state syncs" % nsync)
+    ctx.coverage.update(state_syncs=nsync)
     t = cc.totals(sums)
     for s in sums:
         for dv in (s.get("diverged") or [])[:1]:
@@ -104,6 +113,27 @@ def run(ctx):
     rej2, _, _ = cc.validate(ctx, forged, "TraceReplica", "tracereplica_c01.cfg")
     if not rej2:
         raise vlib.Infra("self-test failed: forged divergence accepted")
+    # self-test 2: a state-synced replica reported to disagree must be rejected
+    segs, cur = [], []
+    for ln in lines:
+        if '"ev":"begin_chain"' in ln and cur:
+            segs.append(cur)
+            cur = []
+        cur.append(ln)
+    segs.append(cur)
+    seg = next((sg for sg in segs if any('"ev":"statesync"' in x for x in sg)), None)
+    if seg is None:
+        raise vlib.Infra("self-test: no scenario with a state sync")
+    forged, done = [], False
+    for ln in seg:
+        e = json.loads(ln)
+        if e.get("ev") == "statesync" and not done and e.get("agree"):
+            e["agree"] = False
+            done = True
+        forged.append(json.dumps(e) + "\n")
+    rej3, _, _ = cc.validate(ctx, forged, "TraceReplica", "tracereplica_c01.cfg")
+    if not done or not rej3:
+        raise vlib.Infra("self-test failed: forged state-sync divergence accepted")
     ctx.coverage.update(traces_validated_against_impl=nv, trace_events=nev, blocks=t["blocks"], replica_paths=t["paths"],
                         path_rows=len(uniq), replicas=4, concurrent_calls=sum(s.get("concurrent_calls", 0) for s in sums), selftest_forged_divergence_rejected=True,
                         samples=[json.loads(x) for x in lines if '"ev":"agree"' in x][:2])
